@@ -43,6 +43,8 @@ def _world(prog, extra_validators=None, meta_schema=None, version=None, id_key="
     table = {"k1": kw("k1", 2), "k2": kw("k2", 1), "k0": kw("k0", 0), "kn": kw("kn", ret_none=True), "$ref": kw("$ref", 1), "if": kw("if", 1),
              "kp": kw("kp", 1, preset={"validator": "inner", "validator_value": "iv", "instance": "ii", "schema": "is"}),
              "kx": kw("kx", raises=PyRaise("Boom", "keyword function failed")),
+             "ki": kw("ki", 1, preset={"instance": "own-instance"}), "kv": kw("kv", 1, preset={"validator": "own-keyword"}),
+             "ks": kw("ks", 1, preset={"schema": "own-schema", "validator_value": "own-value"}),
              "kd1": lambda validator, value, instance, schema: iter([VE("same message")]),
              "kd2": lambda validator, value, instance, schema: iter([VE("same message")])}
     table.update(extra_validators or {})
@@ -68,7 +70,7 @@ def dispatch_eval(prog):
             made.clear()
             return list(g(v, method)(inst, schema, **kw))
         # all keyword functions, in schema order, every error, unknown keys and None results skipped
-        s1 = {"k1": 10, "unknown": 1, "kn": 0, "k0": 5, "k2": 20}
+        s1 = {"k1": 10, "unknown": 1, "x-vendor": {"a": 1}, "$comment": "c", "": 0, "title": "t", "kn": 0, "k0": 5, "K1": 3, "k2": 20, "k1 ": 4}
         errs = run(s1)
         out["all-errors"] = None
         want = made.get("k1", []) + made.get("k2", [])
@@ -94,6 +96,18 @@ def dispatch_eval(prog):
         e = run({"kp": 1})[0]
         if (g(e, "validator"), g(e, "validator_value"), g(e, "instance"), g(e, "schema")) != ("inner", "iv", "ii", "is"):
             out["stamp"] = "fields already set by the keyword function are overwritten (innermost must win)"
+        # each field on its own: a keyword function may have set any subset of them
+        for k, kept, filled in (("ki", {"instance": "own-instance"}, ("validator", "validator_value", "schema")),
+                                ("kv", {"validator": "own-keyword"}, ("validator_value", "instance", "schema")),
+                                ("ks", {"schema": "own-schema", "validator_value": "own-value"}, ("validator", "instance"))):
+            sk = {k: 5}
+            e = run(sk)[0]
+            want = {"validator": k, "validator_value": 5, "instance": I, "schema": sk}
+            want.update(kept)
+            got = {f: g(e, f) for f in want}
+            if any(got[f] is not want[f] and got[f] != want[f] for f in want):
+                out["stamp"] = "an error that arrives with only %s set leaves the dispatcher with %r; every field is filled exactly when it is still unset" % (
+                    sorted(kept), {f: got[f] for f in sorted(got)})
         for k in ("if", "$ref"):
             e = run({k: "v"})[0]
             if list(g(e, "schema_path")):
@@ -214,7 +228,8 @@ def classes_eval(prog):
     """create / extend / validates / own resolver (C16, C18, C20)."""
     out = {}
     try:
-        ev, V, VE, log, made, table, id_of = _world(prog, id_key="id")
+        meta0 = {"id": "http://m/meta#", "k1": 7}
+        ev, V, VE, log, made, table, id_of = _world(prog, id_key="id", meta_schema=meta0)
         g = lambda o, n: ev.obj_getattr(o, n)
         ca = lambda c, n: ev.expr(__import__("ast").parse("C.%s" % n, mode="eval").body, {"C": c}, None)
         # create copies what it is given
@@ -226,6 +241,12 @@ def classes_eval(prog):
         if "late" in ca(V, "VALIDATORS"):
             out["create-copies"] = "a key added to the caller's mapping after create() shows up in the class's keyword table"
         del table["late"]
+        if meta is meta0:
+            out["create-copies"] = "the class's META_SCHEMA is the very mapping given to create(): writing to one (a derived class's META_SCHEMA) changes the other"
+        meta0["late"] = 1
+        if "late" in ca(V, "META_SCHEMA"):
+            out["create-copies"] = "a key added to the caller's metaschema mapping after create() shows up in the class's META_SCHEMA"
+        del meta0["late"]
         # extend
         out["extend"] = None
         extend = prog.func("validators.extend")
@@ -248,6 +269,24 @@ def classes_eval(prog):
             W3 = ev.call_func(extend, [V], {})
             if ca(W3, "VALIDATORS") != ca(V, "VALIDATORS") or ca(W3, "VALIDATORS") is ca(V, "VALIDATORS") or ca(W3, "META_SCHEMA") != ca(V, "META_SCHEMA"):
                 out["extend"] = "extend() with no changes does not give an equal, separate class"
+        # a parent created the deprecated way (default_types=...) hands its own type checks on as well
+        if out["extend"] is None:
+            with warnings.catch_warnings(record=True):
+                warnings.simplefilter("always")
+                P = ev.call_func(prog.func("validators.create"), [], {"meta_schema": {"id": "http://m/legacy#"}, "validators": dict(table), "id_of": id_of,
+                                                                        "default_types": {"array": (list, tuple), "object": dict, "thing": frozenset}})
+                W4 = ev.call_func(extend, [P], {"validators": {"k9": k9}})
+            if ca(W4, "TYPE_CHECKER") is not ca(P, "TYPE_CHECKER"):
+                out["extend"] = "a class extended from a parent created with default_types does not carry the parent's type checker (custom type names are lost)"
+            else:
+                try:
+                    with warnings.catch_warnings(record=True):
+                        warnings.simplefilter("always")
+                        ev.call_func(extend, [P], {"type_checker": tc})
+                    out["extend"] = "extending a default_types parent with a type checker is not refused"
+                except PyRaise as pr:
+                    if pr.name != "TypeError":
+                        out["extend"] = "extending a default_types parent with a type checker raises %s" % pr.name
         # registration
         out["registers"] = None
         reg_v = ev.module_value("validators", "validators")
